@@ -155,6 +155,18 @@ async fn one_config(a: Args, idx: usize, m: refimpl::ss::Method, users: usize) -
             tokio::time::sleep(Duration::from_millis(3)).await;
             rep.evaluations += 1;
         }
+        // the same session seen from another source address (a path change, or an attacker replaying a captured
+        // datagram): ids that were accepted stay accepted-once
+        if let Ok(s2) = UdpSocket::bind("127.0.0.1:0").await {
+            let again: Vec<u64> = model.accepted.iter().rev().take(4).copied().collect();
+            for id in again {
+                let w = send(id, &mut rng);
+                let _ = s2.send_to(&w, ("127.0.0.1", d.server_port)).await;
+                tokio::time::sleep(Duration::from_millis(3)).await;
+                rep.evaluations += 1;
+                rep.mon("accepted_ids_presented_again_from_another_address", 1);
+            }
+        }
         tokio::time::sleep(Duration::from_millis(400)).await;
         let got: HashMap<u64, u32> = {
             let g = log.lock().unwrap();
